@@ -8,6 +8,7 @@ import (
 	"bytes"
 	"encoding/json"
 	"fmt"
+	"math/rand"
 	"os"
 	"runtime"
 	"strconv"
@@ -189,4 +190,277 @@ func TestOrdered(t *testing.T) {
 		lg.Emit(map[string]interface{}{"ev": "fin", "ooo": delta, "bad": bad, "badcall": badcall, "baderr": baderr})
 	}
 	lg.Emit(map[string]interface{}{"ev": "done", "n": len(lines)})
+}
+
+// ---------------------------------------------------------------------------
+// "Many names": N distinct, realistic metric names, each dispatched exactly once
+// with a positive timestamp, timestamps decreasing in dispatch order.  Every
+// point is the first of its name.  The driver only records: how often each
+// point arrived at the route, the increase of the out_of_order counter and
+// the bad-metrics records; it writes the projection of the run to the names
+// that did not arrive exactly once, the known colliding pairs and a seeded
+// sample of the others.  spec/OrderedTrace.tla decides.
+
+var (
+	mnCPU     = []string{"user", "system", "idle", "iowait", "steal", "nice"}
+	mnDisk    = []string{"read_bytes", "write_bytes", "iops"}
+	mnSvc     = []string{"auth", "billing", "search", "checkout", "inventory"}
+	mnApps    = []string{"frontend", "gateway", "worker", "scheduler"}
+	mnRegions = []string{"us-east-1", "us-west-2", "eu-west-1", "eu-central-1", "ap-south-1"}
+	mnNS      = []string{"default", "monitoring", "payments", "kube-system"}
+	mnDeploy  = []string{"api", "web", "cache", "queue-consumer", "ingest", "cron"}
+	mnDir     = []string{"rx", "tx"}
+)
+
+const mnTemplates = 8
+
+// manyName is injective in n for every template t
+func manyName(t int, n int) string {
+	switch t {
+	case 0:
+		return fmt.Sprintf("servers.web%05d.cpu.%s", n/6, mnCPU[n%6])
+	case 1:
+		return fmt.Sprintf("servers.db%04d.disk.sd%c.%s", n/12, 'a'+byte((n/3)%4), mnDisk[n%3])
+	case 2:
+		return fmt.Sprintf("stats.timers.api.%s.endpoint%d.upper_90", mnSvc[n%5], n/5)
+	case 3:
+		return fmt.Sprintf("collectd.host-%06x.interface-eth%d.if_octets.%s", n/4, (n/2)%2, mnDir[n%2])
+	case 4:
+		return fmt.Sprintf("app.%s.region-%s.pod-%d.requests.count", mnApps[n%4], mnRegions[(n/4)%5], n/20)
+	case 5:
+		return fmt.Sprintf("k%d", n)
+	case 6:
+		return fmt.Sprintf("m.%x.v", n)
+	default:
+		return fmt.Sprintf("telemetry.prod.cluster-%02d.namespace-%s.deployment-%s.container-%d.memory.working_set_bytes",
+			n%50, mnNS[(n/50)%4], mnDeploy[(n/200)%6], n/1200)
+	}
+}
+
+// pairs of names of the templates above with equal 32-bit hashes, found offline by a search over 480 000 names
+// (hash, name, name): whatever short key a register map might use, a few of the usual candidates are covered
+// for every seed; the generic part is the number of names (birthday bound of a 32-bit key: ~77 000)
+var mnCollide = [][3]string{
+	{"fnv1a32", "stats.timers.api.billing.endpoint384.upper_90", "k19881"},
+	{"fnv1a32", "stats.timers.api.inventory.endpoint1999.upper_90", "m.5026.v"},
+	{"fnv1a32", "servers.db1928.disk.sdb.write_bytes", "app.worker.region-ap-south-1.pod-1219.requests.count"},
+	{"fnv1_32", "k1818", "collectd.host-000531.interface-eth0.if_octets.rx"},
+	{"fnv1_32", "telemetry.prod.cluster-46.namespace-kube-system.deployment-api.container-3.memory.working_set_bytes", "collectd.host-000747.interface-eth0.if_octets.rx"},
+	{"fnv1_32", "app.gateway.region-ap-south-1.pod-604.requests.count", "k13434"},
+	{"crc32ieee", "k6313", "app.frontend.region-us-east-1.pod-431.requests.count"},
+	{"crc32ieee", "k15087", "servers.web02683.cpu.user"},
+	{"crc32ieee", "servers.web00166.cpu.steal", "collectd.host-001371.interface-eth0.if_octets.tx"},
+	{"crc32c", "app.scheduler.region-us-east-1.pod-150.requests.count", "collectd.host-000426.interface-eth1.if_octets.tx"},
+	{"crc32c", "servers.web00456.cpu.user", "collectd.host-0007e0.interface-eth1.if_octets.tx"},
+	{"crc32c", "m.1c4e.v", "collectd.host-000d1e.interface-eth1.if_octets.rx"},
+	{"fnv1a64lo", "m.1a8b.v", "servers.web02312.cpu.user"},
+	{"fnv1a64lo", "telemetry.prod.cluster-11.namespace-monitoring.deployment-cron.container-10.memory.working_set_bytes", "stats.timers.api.auth.endpoint3154.upper_90"},
+	{"fnv1a64lo", "app.worker.region-ap-south-1.pod-429.requests.count", "k18678"},
+	{"fnv1a64hi", "app.gateway.region-us-east-1.pod-222.requests.count", "k8565"},
+	{"fnv1a64hi", "app.scheduler.region-us-west-2.pod-227.requests.count", "app.worker.region-eu-west-1.pod-519.requests.count"},
+	{"fnv1a64hi", "stats.timers.api.checkout.endpoint196.upper_90", "k15436"},
+	{"fnv1a64fold", "servers.web01272.cpu.user", "m.22ac.v"},
+	{"fnv1a64fold", "k9750", "servers.db0977.disk.sdc.read_bytes"},
+	{"fnv1a64fold", "app.scheduler.region-eu-west-1.pod-677.requests.count", "servers.db1460.disk.sdc.read_bytes"},
+	{"fnv1_64lo", "collectd.host-000bde.interface-eth0.if_octets.rx", "stats.timers.api.billing.endpoint3140.upper_90"},
+	{"fnv1_64lo", "collectd.host-000a02.interface-eth0.if_octets.tx", "k21467"},
+	{"fnv1_64lo", "servers.web00369.cpu.idle", "servers.db1862.disk.sda.read_bytes"},
+	{"adler32", "k120", "k201"},
+	{"adler32", "k121", "k202"},
+}
+
+// capture route of the many-names run: the value field of a point is its index + 1
+type manyRoute struct {
+	capRoute
+	names   []string
+	ts      []uint32
+	times   []int32
+	total   int64
+	garbled int64
+}
+
+func (r *manyRoute) Dispatch(buf []byte) {
+	atomic.AddInt64(&r.total, 1)
+	f := bytes.Fields(buf)
+	if len(f) != 3 {
+		atomic.AddInt64(&r.garbled, 1)
+		return
+	}
+	id, err := strconv.Atoi(string(f[1]))
+	if err != nil || id < 1 || id > len(r.names) || string(f[0]) != r.names[id-1] ||
+		string(f[2]) != strconv.FormatUint(uint64(r.ts[id-1]), 10) {
+		atomic.AddInt64(&r.garbled, 1)
+		return
+	}
+	atomic.AddInt32(&r.times[id-1], 1)
+}
+
+func TestManyNames(t *testing.T) {
+	hx.Out(t)
+	n := hx.EnvInt("VERIF_ORD_MANY_N", 300000)
+	nsample := hx.EnvInt("VERIF_ORD_MANY_SAMPLE", 2000)
+	ng := hx.EnvInt("VERIF_ORD_MANY_G", 4)
+	maxlist := hx.EnvInt("VERIF_ORD_MANY_MAXLIST", 400)
+	lg := hx.NewLog(os.Getenv("VERIF_ORD_TRACE"))
+	defer lg.Close()
+	rng := rand.New(rand.NewSource(hx.Seed()*7919 + 19))
+
+	// the names: the known pairs first, then n generated ones (different ranges of every template per seed)
+	names := make([]string, 0, n+2*len(mnCollide))
+	known := map[string]bool{}
+	lists := make([][]int32, ng) // per goroutine: indices into names, disjoint
+	for k, p := range mnCollide {
+		for _, s := range p[1:] {
+			if known[s] {
+				t.Fatalf("name %q is twice in the list of pairs", s)
+			}
+			known[s] = true
+			names = append(names, s)
+		}
+		_ = k
+	}
+	npair := len(names)
+	var base [mnTemplates]int
+	for i := range base {
+		base[i] = rng.Intn(100000)
+	}
+	for i := 0; len(names) < npair+n; i++ {
+		s := manyName(i%mnTemplates, i/mnTemplates+base[i%mnTemplates])
+		if known[s] {
+			continue
+		}
+		names = append(names, s)
+	}
+	total := len(names)
+	// generated names round-robin over the goroutines; the two names of a known pair go to the same goroutine,
+	// one right after the other, at a seeded position
+	for i := npair; i < total; i++ {
+		lists[i%ng] = append(lists[i%ng], int32(i))
+	}
+	for k := 0; k < npair/2; k++ {
+		g := k % ng
+		pos := rng.Intn(len(lists[g]) + 1)
+		l := append([]int32{}, lists[g][:pos]...)
+		a, b := int32(2*k), int32(2*k+1)
+		if rng.Intn(2) == 0 {
+			a, b = b, a
+		}
+		l = append(l, a, b)
+		lists[g] = append(l, lists[g][pos:]...)
+	}
+
+	cfg, err := table.NewTableConfig("/dev/shm/verif-c19-nospool", "24h",
+		validate.LevelLegacy{Level: m20.NoneLegacy}, validate.LevelM20{Level: m20.NoneM20}, true)
+	if err != nil {
+		t.Fatal(err)
+	}
+	tbl := table.New(cfg)
+	cap := &manyRoute{names: names, ts: make([]uint32, total), times: make([]int32, total)}
+	cap.fwd = map[string]int{}
+	tbl.AddRoute(cap)
+
+	ooo := stats.Counter("unit=Err.type=out_of_order")
+	before := ooo.Count()
+	// timestamps decrease in dispatch order (one step per 64 calls, so two calls in flight at the same moment
+	// carry the same timestamp whichever enters the critical section first)
+	const ts0 = 2000000000
+	var ctr, ready int64
+	var wg sync.WaitGroup
+	t0 := time.Now()
+	for g := 0; g < ng; g++ {
+		wg.Add(1)
+		go func(l []int32) {
+			defer wg.Done()
+			atomic.AddInt64(&ready, 1)
+			for atomic.LoadInt64(&ready) < int64(ng) {
+				runtime.Gosched()
+			}
+			buf := make([]byte, 0, 160)
+			for _, i := range l {
+				c := atomic.AddInt64(&ctr, 1)
+				ts := uint32(ts0 - c/64)
+				cap.ts[i] = ts
+				buf = append(buf[:0], names[i]...)
+				buf = append(buf, ' ')
+				buf = strconv.AppendInt(buf, int64(i)+1, 10)
+				buf = append(buf, ' ')
+				buf = strconv.AppendUint(buf, uint64(ts), 10)
+				tbl.Dispatch(buf)
+			}
+		}(lists[g])
+	}
+	wg.Wait()
+	el := time.Since(t0)
+	delta := ooo.Count() - before
+
+	// projection
+	var odd []int // did not arrive exactly once
+	for i := range cap.times {
+		if cap.times[i] != 1 {
+			odd = append(odd, i)
+		}
+	}
+	proj := map[int]string{}
+	var order []int
+	add := func(i int, why string) {
+		if _, ok := proj[i]; !ok {
+			proj[i] = why
+			order = append(order, i)
+		}
+	}
+	for k, i := range odd {
+		if k < maxlist {
+			add(i, "odd")
+		}
+	}
+	for i := 0; i < npair; i++ {
+		add(i, "pair:"+mnCollide[i/2][0])
+	}
+	for k := 0; k < nsample; k++ {
+		add(npair+rng.Intn(n), "sample")
+	}
+	// bad-metrics records (they travel through a buffered channel: poll until every point that did not arrive has one)
+	bad := map[string]string{}
+	deadline := time.Now().Add(20 * time.Second)
+	for {
+		for _, r := range tbl.Bad().Get(24 * time.Hour) {
+			bad[r.Metric] = r.LastMsg
+		}
+		missing := 0
+		for _, i := range odd {
+			if cap.times[i] == 0 {
+				if _, ok := bad[names[i]]; !ok {
+					missing++
+				}
+			}
+		}
+		if missing == 0 || time.Now().After(deadline) {
+			break
+		}
+		time.Sleep(5 * time.Millisecond)
+	}
+	for _, i := range order {
+		c := int64(i) + 1
+		lg.Emit(map[string]interface{}{"ev": "hist", "h": fmt.Sprintf("m%d", i), "fam": "many", "name": names[i], "why": proj[i]})
+		lg.Emit(map[string]interface{}{"ev": "begin", "c": c, "ts": int64(cap.ts[i]), "dot": false})
+		lg.Emit(map[string]interface{}{"ev": "end", "c": c, "fwd": cap.times[i] > 0, "times": int(cap.times[i])})
+		msg, isbad := bad[names[i]]
+		badcall := int64(0)
+		if f := strings.Fields(msg); isbad && len(f) == 3 && f[0] == names[i] {
+			badcall, _ = strconv.ParseInt(f[1], 10, 64)
+		}
+		lg.Emit(map[string]interface{}{"ev": "finp", "bad": isbad, "badcall": badcall})
+	}
+	oddnames := []string{}
+	for k, i := range odd {
+		if k < 40 {
+			oddnames = append(oddnames, fmt.Sprintf("%s ts=%d arrived=%d", names[i], cap.ts[i], cap.times[i]))
+		}
+	}
+	lg.Emit(map[string]interface{}{"ev": "hist", "h": "mtotal", "fam": "many-total"})
+	lg.Emit(map[string]interface{}{"ev": "total", "n": total, "fwd": atomic.LoadInt64(&cap.total), "ooo": delta,
+		"garbled": atomic.LoadInt64(&cap.garbled), "odd": len(odd), "listed": len(order), "oddnames": oddnames,
+		"goroutines": ng, "pairs": npair / 2, "badrecords": len(bad), "dispatch_ms": el.Milliseconds(),
+		"ts_hi": ts0, "ts_lo": ts0 - int64(total)/64})
+	lg.Emit(map[string]interface{}{"ev": "done", "n": total})
 }
